@@ -141,6 +141,14 @@ def main(tier, seed, replay=None):
         for depth in ([10, 60, 250] if tier == "quick" else [10, 60, 250, 300, 320]):
             for kind in (0, 1, 2):
                 vals.append((C.nest(rng.choice([None, 1, "x"]), depth, kind), "supported", ""))
+        # the same list / dict OBJECT reachable by two paths (finite and acyclic: must round-trip like a fresh copy)
+        row, d0 = [1, 2], {}
+        for v in ([row, row], [[0] * 3] * 3, [d0, d0], {"x": row, "y": row}, (row, row), [row, [row], {"z": row}, (row,)]):
+            vals.append((v, "supported", "aliased"))
+        for i in range(60 if tier == "quick" else 1500):
+            sub = C.gen_value(rng, depth=rng.choice([1, 2]), width=3)
+            if isinstance(sub, (list, dict)):
+                vals.append((rng.choice([[sub, sub], (sub, [sub]), {"a": sub, "b": [sub, sub]}, [sub] * 3]), "supported", "aliased"))
         vals.append((C.nest(None, 5000, 0), "supported", "deep-nesting"))
         vals.append((10**5000, "supported", "int-digit-limit"))
         vals.append(([-(10**4400)], "supported", "int-digit-limit"))
